@@ -21,7 +21,7 @@ func init() {
 			"identically after q ran, and q answers its fresh-process baseline bytes (history independence; state = fingerprint of all package-level variables, expected reachable set {s0}); " +
 			"(c) report faithfulness: each bias's report serialised when produced == the same report after all later biases and the method ran == biases[k] of the plain response. " +
 			"states = distinct fingerprints reached, transitions = requests executed from a tracked state, traces validated = pairs whose second response equalled its baseline.",
-		Assume: []string{"shared state is what is reachable from package-level variables of the service file and the lib packages (generated root list); closure-captured variables are covered only by the differential comparison with baselines"},
+		Assume:   []string{"shared state is what is reachable from package-level variables of the service file and the lib packages (generated root list); closure-captured variables are covered only by the differential comparison with baselines"},
 		Run:      c09Run,
 		Check:    c09Check,
 		Finalize: c09Finalize,
